@@ -158,12 +158,15 @@ def run_turn(world: World, messages, verdicts, llm_fn, faults=(), fault_kind="ra
 
 
 # ----------------------------------------------------------------------------- Colang 2.x worlds
-def v2_rail(name, kind):
+def v2_rail(name, kind, shape="flag"):
     exc = "InputRailException" if kind == "input" else "OutputRailException"
+    # shape "threshold": the rail compares its action's result with a threshold (the shape of `self check facts`:
+    # `if $accuracy < 0.5`); True counts as 1, False as 0
+    cond = "not $ok" if shape == "flag" else "$ok < 0.5"
     return f"""
 flow {name} $t
   $ok = await VerifRailAction(rail="{name}", text=$t)
-  if not $ok
+  if {cond}
     if $system.config.enable_rails_exceptions
       send {exc}(message="BLOCKED-{name}")
     else
@@ -224,7 +227,7 @@ def v2_exc_message(rail, library=False):
     return LIB_EXC[rail] if library else f"BLOCKED-{rail}"
 
 
-def v2_world(in_order=(), out_order=(), dialog=False, exceptions=False, extra_colang="", main=None, library=False):
+def v2_world(in_order=(), out_order=(), dialog=False, exceptions=False, extra_colang="", main=None, library=False, shape="flag"):
     """library=True: the rails are the SHIPPED flows `self check input` / `self check output` (rails in1 / out1); only
     their actions are replaced by stubs that follow the verdict script"""
     colang = "import core\nimport guardrails\n" + ("import llm\n" if dialog == "llm" else "")
@@ -245,7 +248,7 @@ def v2_world(in_order=(), out_order=(), dialog=False, exceptions=False, extra_co
         if out_order:
             colang += "\nflow output rails $output_text\n  self check output\n"
     else:
-        colang += "".join(v2_rail(r, "input") for r in IN_RAILS) + "".join(v2_rail(r, "output") for r in OUT_RAILS)
+        colang += "".join(v2_rail(r, "input", shape) for r in IN_RAILS) + "".join(v2_rail(r, "output", shape) for r in OUT_RAILS)
         if in_order:
             colang += "\nflow input rails $input_text\n" + "".join(f"  {r} $input_text\n" for r in in_order)
         if out_order:
